@@ -46,9 +46,17 @@ def gen_cases(ctx, n):
         cases.append(G.gen_case(ctx.rng, form=form))
     for d in range(1, 6):
         cases.append(G.gen_case(ctx.rng, family="polynomial", degree=d, sy="point"))
-    for fam in ("exponential", "gaussian", "custom:sine", "custom:growth", "custom:lorentz"):
+    fams = ("exponential", "gaussian", "custom:sine", "custom:growth", "custom:lorentz")
+    for k, fam in enumerate(fams):
         cases.append(G.gen_case(ctx.rng, family=fam, sx="point", noise_free=False))
         cases.append(G.gen_case(ctx.rng, family=fam, sx="common", noise_free=True))
+        # x-uncertainties some of which are exactly 0 (exactly known abscissae): every model with
+        # "some zeros", and in turn "exactly one non-zero" / "common, one element set to 0 later"
+        cases.append(G.gen_case(ctx.rng, family=fam, sx="zeros", noise_free=False))
+        cases.append(G.gen_case(ctx.rng, family=fam, sx=("one", "edit")[k % 2], noise_free=False,
+                                form=("marrays", "xyds", "xyds.fit", "lists")[k % 4]))
+        cases.append(G.gen_case(ctx.rng, family=fam, sx=("edit", "one")[k % 2], noise_free=False,
+                                form=("xyds.fit", "marrays", "arrays", "xyds")[k % 4]))
     while len(cases) < n:
         cases.append(G.gen_case(ctx.rng))
     return cases
